@@ -328,12 +328,16 @@ class Generator:
         return a
 
     def array_elem(self, scope, aliased=False):
-        """Element type of an array: scalar, enum, message or alias-of-scalar."""
+        """Element type of an array: scalar, enum, message, alias-of-scalar, or
+        alias-of-array (the documented way to build multi-dimensional arrays)."""
         r = self.rng
-        pool = [t for t in self.visible(scope) if t.kind in ("enum", "message") or (t.kind == "alias" and t.target.kind != "array")]
+        pool = [t for t in self.visible(scope) if t.kind in ("enum", "message", "alias")]
         if aliased:
             pool = [t for t in pool if t.parent is None]
         if pool and r.chance(0.5):
+            multi = [t for t in pool if t.kind == "alias" and t.target.kind == "array"]
+            if multi and r.chance(0.5):
+                return r.choice(multi)
             return r.choice(pool)
         return self.scalar()
 
@@ -434,7 +438,7 @@ class Generator:
             if r.chance(0.4):
                 s.defs.append(Const("K_FLAG", r.choice(["true", "false", "yes", "no"]), None))
         for _ in range(ntop):
-            k = r.weighted([("enum", 2), ("alias", 2), ("message", 5)])
+            k = r.weighted([("enum", 2), ("alias", 4 if c.fleet else 2), ("message", 5)])
             if k == "enum":
                 d = self.new_enum()
             elif k == "alias":
